@@ -1,6 +1,7 @@
 package main
 
 import (
+	rio "github.com/pip-services3-gox/pip-services3-expressions-gox/io"
 	"fmt"
 	"strings"
 	"time"
@@ -305,3 +306,5 @@ func lexSoup(c *Ctx, kind string, maxLex int) []rune {
 	}
 	return []rune(sb.String())
 }
+
+func newScanner(s string) *rio.StringScanner { return rio.NewStringScanner(s) }
